@@ -18,7 +18,7 @@ func (v *Vue) evalVText(ctx VueContext, n *htmlnode.Node) error {
 		return nil
 	}
 
-	val, ok := ctx.stack.Resolve(expr)
+	val, ok := v.resolveOperand(ctx, expr)
 	if !ok {
 		// v-text may be a function call like "file(src)"
 		var err error
